@@ -129,8 +129,22 @@ def evalDupHead (ins outs : List String) : Verdict :=
   | _, some s, _, _, _, _, _, _, _, _ => .prop "c07_state_finished" s!"duphead start={s}"
   | _, _, _, _, _, _, _, _, _, _ => .bad "duphead fields"
 
+/-- restart with the wanted tail above the stored head, first catch-up meets a getter fault, a later head retries:
+    at quiescence one gap-free run ending at the newest head -/
+def evalTailAbove (ins outs : List String) : Verdict :=
+  match (kv? ins "heads").bind natList?, kv? outs "start", kvNat? outs "head", kvNat? outs "err", kvNat? outs "finished", kv? outs "stored", kvNat? outs "tail" with
+  | some heads, some "ok", some head, some err, some fin, some stored, some tail =>
+    match c03_store_ok stored head tail with
+    | some c => .prop c s!"tailabove: head={head} tail={tail} stored={stored}"
+    | none =>
+      if head != heads.foldl max 0 then .prop "c03_one_contiguous_run" s!"the Syncer reports being synced (err={err} finished={fin}) while the store's contiguous head is {head}, newest accepted head {heads.foldl max 0}" else
+      .ok "tailabove"
+  | _, some s, _, _, _, _, _ => .ok s!"tailabove-start-{s}"
+  | _, _, _, _, _, _, _ => .bad "tailabove fields"
+
 /-- heads learned while a sync is running must be synced as well -/
 def evalBurst (ins outs : List String) : Verdict :=
+  if kv? ins "kind" == some "tailabove" then evalTailAbove ins outs else
   if kv? ins "kind" == some "duphead" then evalDupHead ins outs else
   if kv? ins "kind" == some "appendrace" then evalAppendRace ins outs else
   match (kv? ins "heads").bind natList?, kvNat? outs "head", kvNat? outs "err", kvNat? outs "finished", kv? outs "syncwait", kv? outs "stored", kvNat? outs "tail" with
